@@ -23,9 +23,25 @@ CLAIMED = {
     },
 }
 
+CLAIMED["C12"] = {
+    "level": "model_checking",
+    "text": ("The entity edit API (Set/SetAll/Delete/GetOrDefault/Clone/Merge, AddKinds/DeleteKinds/Node.Merge) is transcribed "
+             "into the mechanism spec EntityDelta.tla and model-checked exhaustively (2 keys x 2 values x 2 kinds x 2 entities, "
+             "all loaded states, 7.5e5 distinct states) against the statement DeltaExact (change sets disjoint; delta applied to "
+             "the loaded state = current state). TLC enumerates every history up to a depth bound plus long random walks; each "
+             "is replayed on real *graph.Node, *graph.Relationship and *graph.Properties; the full projection of every live "
+             "object after every call is validated by TLC against the property spec (determined post-state for edits, the "
+             "invariant for merges, frame condition for all other objects)."),
+    "design_ref": "DESIGN.md 4/C12",
+    "note": ("Small scope (2 keys, 2 values, 2 kinds, 2 entities + clone shadow; depth 3-4 exhaustive, 10 sampled). Merge partners "
+             "are loaded from the same state. Which side wins when both partners edited the same key is not demanded. Trusts TLC "
+             "and the harness projection."),
+    "technique": "TLA+ model checking of a transcribed mechanism spec + TLC history generation + TLC trace validation of real-code state projections",
+}
+
 _NB = "not built yet in this round (design in DESIGN.md section 4)"
 NOT_APPLICABLE = {
     "C01": "needs the emitted SQL executed on PostgreSQL; no SQL engine exists in this sandbox and a TLA+ model of PostgreSQL would verify the model, not DAWGS (DESIGN.md section 5)",
     "C02": _NB, "C03": _NB, "C04": _NB, "C05": _NB, "C06": _NB, "C07": _NB, "C08": _NB, "C09": _NB, "C10": _NB,
-    "C11": _NB, "C12": _NB, "C13": _NB, "C14": _NB, "C15": _NB, "C17": _NB, "C18": _NB, "C19": _NB, "C20": _NB,
+    "C11": _NB, "C13": _NB, "C14": _NB, "C15": _NB, "C17": _NB, "C18": _NB, "C19": _NB, "C20": _NB,
 }
